@@ -19,16 +19,17 @@ def diff_key(d):
     return '%s[%s]' % (d.kind, what)
 
 
-def run(ctx, report, prop, spec_file, modules, reviewed=None, skip_sides=None):
+def run(ctx, report, prop, spec_file, modules, reviewed=None, skip_sides=None, only=None, sides=('parse', 'compose'), rules=None):
     model = ctx.model
     spec = load_spec(spec_file)
     table = spec['structures']
     reviewed = reviewed or {}
     skip_sides = skip_sides or {}
-    R1, R2, R3 = prop + '.R1', prop + '.R2', prop + '.R3'
-    report.rule(R1, 'extracted parser layout and composer layout each equal the layout written down from the specification')
-    report.rule(R2, 'numeric registries equal the specification / IANA numbers')
-    report.rule(R3, 'every wire structure of the protocol modules has a specification entry')
+    R1, R2, R3 = rules or (prop + '.R1', prop + '.R2', prop + '.R3')
+    if rules is None:
+        report.rule(R1, 'extracted parser layout and composer layout each equal the layout written down from the specification')
+        report.rule(R2, 'numeric registries equal the specification / IANA numbers')
+        report.rule(R3, 'every wire structure of the protocol modules has a specification entry')
     seen = set()
     for name, entry in table.items():
         c = model.try_cls(name)
@@ -36,6 +37,8 @@ def run(ctx, report, prop, spec_file, modules, reviewed=None, skip_sides=None):
             report.error('%s: specified class %s vanished' % (R1, name))
             continue
         seen.add(name)
+        if only is not None and not only(c):
+            continue
         if c.abstract_methods:
             # a base class carrying the layout: compare through its first concrete subclass
             subs = [s for s in model.all_subclasses(c) if not s.abstract_methods]
@@ -49,7 +52,7 @@ def run(ctx, report, prop, spec_file, modules, reviewed=None, skip_sides=None):
             layout_entry = {'ref': entry['ref'], 'layout': [{'vector': entry['vector']}]}
         else:
             layout_entry = entry
-        for side in ('parse', 'compose'):
+        for side in sides:
             if side in skip_sides.get(name, ()):
                 continue
             report.count(R1)
@@ -73,6 +76,8 @@ def run(ctx, report, prop, spec_file, modules, reviewed=None, skip_sides=None):
                            '%s side differs from %s: %s' % ('parser' if side == 'parse' else 'composer', entry.get('ref', 'the specification'), d.detail))
             if not cm.diffs and side == 'parse':
                 report.sample({'rule': R1, 'class': name, 'ref': entry.get('ref'), 'layout': [e.sig() for e in cm.spec.elements][:8], 'verdict': 'both sides agree' if True else ''}, 10)
+    if R2 is None:
+        return
     registries(ctx, report, R2, spec.get('registries', {}))
     enum_bindings(ctx, report, R2, modules)
     # coverage
@@ -98,8 +103,34 @@ def attribute_names(ctx, report, rule, recv, c, side, cm):
     the composer must read it there (detects two same-width fields swapped consistently on both sides)"""
     from .compare import compose_root, parse_bindings
     binds = None
+    seen_outer = set()
     for a, b in cm.pairs:
         sp = b.extra.get('spec') if hasattr(b, 'extra') else None
+        if (not sp or not sp.get('attr')) and hasattr(b, 'extra') and b.extra.get('outer_attr'):
+            # an element of a structure the specification item (naming the attribute) was expanded into: the code element
+            # must come from the expansion of the nested value that carries that attribute
+            want = b.extra['outer_attr']
+            outer = a.extra.get('expanded_from')
+            while outer is not None and outer.extra.get('expanded_from') is not None:
+                outer = outer.extra['expanded_from']
+            if outer is None or (id(outer), want) in seen_outer:
+                continue
+            seen_outer.add((id(outer), want))
+            report.count(rule)
+            if side == 'compose':
+                roots = {r[0] for r in compose_root(outer.val)} if outer.val is not None else set()
+                roots.discard('*')
+                if roots and want not in roots:
+                    report.add(rule, '%s@compose/attr[%s]' % (c.construct, want),
+                               'at the position of %s the composer writes attribute %s' % (want, sorted(roots)))
+            elif outer.key is not None and outer.op is not None and getattr(outer.op, 'target', None) is not None:
+                if binds is None:
+                    binds = parse_bindings(ctx.canon.layout(recv, 'parse').result, recv, ctx.model)
+                got = {x[0] for x in binds.get((id(outer.op.target), outer.key), [])}
+                if got and want not in got:
+                    report.add(rule, '%s@parse/attr[%s]' % (c.construct, want),
+                               'the field the specification calls %s is parsed into attribute %s' % (want, sorted(got)))
+            continue
         if not sp or not sp.get('attr'):
             continue
         want = sp['attr']
